@@ -353,7 +353,7 @@ func c01LowS(c *ctx, fn *ssa.Function) {
 					// rx.Cmp(N) or N.Cmp(rx)
 					if core.CallIs(call, "(*math/big.Int).Cmp") {
 						a0, a1 := call.Call.Args[0], call.Call.Args[1]
-						if (strings.HasSuffix(descr(a0), "temp.rx") && core.IsCurveOrder(core.TermOf(a1))) || (strings.HasSuffix(descr(a1), "temp.rx") && core.IsCurveOrder(core.TermOf(a0))) {
+						if (strings.HasSuffix(descr(a0), "temp.rx") && core.IsCurveOrder(core.FrameTerm(fn, a1))) || (strings.HasSuffix(descr(a1), "temp.rx") && core.IsCurveOrder(core.FrameTerm(fn, a0))) {
 							sawCmp = true
 						}
 					}
